@@ -11,6 +11,7 @@ import NxsModel.Struct
 import NxsModel.Gen.Types
 import NxsModel.Gen.Fmt
 import NxsModel.Gen.Ids
+import NxsModel.Serial
 namespace Nxs
 namespace Stream
 open Gen.Ids
@@ -208,6 +209,18 @@ def streamDataEncode (user : List UserType) (ss : List Sample) : Except Err (Opt
   (pack Gen.Fmt.streamFlagsEnc [.int 0]).bind fun fl =>
     (encodeSamples user ss).bind fun (body, n) =>
       if n = 0 then .ok none else .ok (some (fl ++ body))
+
+/-- `ParseRecv.frame_stream_encode`: the STREAM frame, or `none` when there is nothing to send -/
+def frameStreamEncode (user : List UserType) (ss : List Sample) : Except Err (Option Bytes) :=
+  (streamDataEncode user ss).bind fun o =>
+    match o with
+    | none => .ok none
+    | some p => (Serial.frameCreate idSTREAM (some p)).bind fun f => .ok (some f)
+
+/-- `Parser.frame_stream_decode` on a decoded frame: `none` unless it is a STREAM frame with data -/
+def frameStreamDecode (layout : List Chan) (user : List UserType) (fr : Serial.Frame) :
+    Except Err (Option (Nat × List Sample)) :=
+  if fr.fid ≠ idSTREAM then .ok none else streamDecode layout user fr.data
 
 end Stream
 end Nxs
